@@ -1016,6 +1016,31 @@ def tab4(units, R):
             tot += co * v
         return tot
 
+    _sdefs = {}
+    for d_ in fn.locals():
+        _sdefs.setdefault(d_['d'], [])
+        if 'init' in d_:
+            _sdefs[d_['d']].append(d_['init'])
+    for a_ in assignments(fn):
+        if is_ref(a_['l']):
+            _sdefs.setdefault(strip_casts(a_['l'])['d'], []).append(a_['r'] if a_['op'] == '=' else None)
+
+    def cval(e, depth=0):
+        """constant value of e, through locals with a single constant definition (const size_t n = sizeof("null") - sizeof(""))"""
+        v = const_val(e)
+        if v is not None or depth > 3:
+            return v
+        e0 = strip_casts(e)
+        if e0.get('k') == 'ref' and e0.get('dk') == 'local':
+            ds = _sdefs.get(e0['d'], [])
+            if len(ds) == 1 and ds[0] is not None:
+                return cval(ds[0], depth + 1)
+        if e0.get('k') == 'bin' and e0['op'] in ('+', '-'):
+            l, r = cval(e0['l'], depth + 1), cval(e0['r'], depth + 1)
+            if l is not None and r is not None:
+                return l + r if e0['op'] == '+' else l - r
+        return None
+
     def required_before(xcfg, node_id):
         """S of the nearest `X->offset + S <= X->length` (can_read) whose true edge every path to the node takes"""
         def size_of(nn):
@@ -1115,7 +1140,7 @@ def tab4(units, R):
             continue
         call = p[0]
         lits = [strip_casts(a) for a in call['args'] if strip_casts(a).get('k') == 'str']
-        nn = const_val(call['args'][2])
+        nn = cval(call['args'][2])
         if not lits or nn is None:
             continue
         text = bytes(lits[0]['bytes']).decode('latin1')
@@ -1130,11 +1155,11 @@ def tab4(units, R):
             mn = cfg.nodes[m]
             if mn.kind == 'stmt' and mn.expr.get('k') == 'bin':
                 if mn.expr['op'] == '+=' and is_mem(mn.expr['l'], 'offset') and adv is None:
-                    adv = const_val(mn.expr['r'])
+                    adv = cval(mn.expr['r'])
                 if mn.expr['op'] == '=' and is_mem(mn.expr['l'], 'type') and kind is None:
-                    kind = const_val(mn.expr['r'])
+                    kind = cval(mn.expr['r'])
         rq = required_before(cfg, b.id)
-        found[text] = (nn, adv, kind, b, const_val(rq) if rq is not None else 'none')
+        found[text] = (nn, adv, kind, b, cval(rq) if rq is not None else 'none')
     for text, bit in LITERALS.items():
         if text not in found:
             R.ob('TAB4', fn, None, 'literal %s is recognised' % text, False, 'no comparison with "%s"' % text, key='lit:' + text)
